@@ -99,6 +99,19 @@ func CondText(v ssa.Value, branch bool) string {
 	return negText(v, 0, map[ssa.Value]bool{})
 }
 
+// recvText renders the receiver of a method call as a short prefix ("c.cache.", "newConn()#0."), or
+// nothing when it is not a simple path.
+func recvText(v ssa.Value, d int, seen map[ssa.Value]bool) string {
+	if d > 4 {
+		return ""
+	}
+	t := argTextD(v, d+3, seen)
+	if len(t) > 60 || strings.HasPrefix(t, "phi{") || strings.HasPrefix(t, "<") || strings.HasPrefix(t, "new(") {
+		return ""
+	}
+	return t + "."
+}
+
 // indexText renders a constant or parameter index; loop indices are left out.
 func indexText(v ssa.Value) string {
 	switch x := v.(type) {
@@ -242,6 +255,12 @@ func argTextD(v ssa.Value, d int, seen map[ssa.Value]bool) string {
 		return argTextD(x.Tuple, d, seen) + fmt.Sprintf("#%d", x.Index)
 	case *ssa.Call:
 		name := shortCallee(&x.Call)
+		// the receiver tells two calls of one method apart (the first connection's Write and the second's)
+		if x.Call.IsInvoke() {
+			name = recvText(x.Call.Value, d, seen) + name
+		} else if sig := x.Call.Signature(); sig != nil && sig.Recv() != nil && len(x.Call.Args) > 0 {
+			name = recvText(x.Call.Args[0], d, seen) + name
+		}
 		if d >= 2 {
 			return name + "()"
 		}
@@ -331,7 +350,7 @@ func WiringRows(fn *ssa.Function, want func(callee string) bool) []string {
 				}
 			} else {
 				std := false
-				for _, p := range []string{"strings.", "strconv.", "regexp.", "net.", "net/url.", "path.", "sort.", "fmt.Sprintf", "fmt.Sprint", "reflect.DeepEqual", "os.", "time."} {
+				for _, p := range []string{"strings.", "strconv.", "regexp.", "net.", "net/url.", "path.", "sort.", "fmt.Sprintf", "fmt.Sprint", "reflect.DeepEqual", "os.", "time.", "flag.", "github.com/spf13/pflag."} {
 					if strings.HasPrefix(full, p) || strings.HasPrefix(full, "(*"+p) || strings.HasPrefix(full, "("+p) {
 						std = true
 					}
